@@ -52,8 +52,15 @@ def gen_pattern(rng, refs):
     if r < 0.8:
         k = rng.randint(2, len(parts))
         return ("regexp", "/".join(parts[:k]) + rng.choice(["/.*", ".*", "/[^/]+", "(/.*)?"]))
-    return ("regexp", rng.choice(["refs/(heads|tags)/.*", ".*/main", "refs/[a-z]+/[a-z0-9.]+", ".*\\d.*", "refs/.*/.*/.*",
-                                  "refs/heads/.*|refs/wip/.*"]))
+    if r < 0.9:
+        return ("regexp", rng.choice(["refs/(heads|tags)/.*", ".*/main", "refs/[a-z]+/[a-z0-9.]+", ".*\\d.*", "refs/.*/.*/.*",
+                                      "refs/heads/.*|refs/wip/.*"]))
+    # patterns whose leftmost-first match is shorter than the longest one: an alternative that is a proper prefix of a later
+    # alternative, lazy quantifiers, optional tails (whether a name satisfies the rule is a question about the whole name)
+    return ("regexp", rng.choice(["refs/heads/(foo|foobar)", "refs/heads/foo|refs/heads/foobar", "refs/tags/v|refs/tags/v\\d",
+                                  "refs/heads/(rel|rel/\\d\\.\\d)", "refs/misc/.*?", "refs/tags/v\\d??", "refs/heads/feature/.+?",
+                                  "refs/(foo|foo/bar)", "refs/wip/\\d*?", "refs/heads/(d|de|dev)", "refs/changes/1|refs/changes/1/2/3",
+                                  "refs/remotes/(origin|origin/main)"]))
 
 
 def gen_forest(rng, refs, deep=False):
@@ -328,6 +335,62 @@ def many_refs_case(chk, sz, scratch, nrefs, prefix="C07"):
     shutil.rmtree(d, ignore_errors=True)
 
 
+def many_walked_refs_case(chk, sz, scratch, nrefs, prefix="C07"):
+    """Thousands of references that are all walked, each the only name of its own commit, spread unevenly over the built-in
+    groups; some runs list the references (--show-refs) to a reader of stderr that takes them slowly. All three formats of
+    every run must show the same, exact counts."""
+    from .C11 import check_formats
+    d = os.path.join(scratch, "manywalked")
+    t = G.Tree([G.Entry(G.FILE, b"f", G.Blob(b"x\n"))])
+    m = G.Model()
+    kinds = ["heads", "heads", "heads", "tags", "remotes/o", "misc", "heads", "tags"]
+    tallies = {}
+    for i in range(nrefs):
+        k = kinds[i % len(kinds)]
+        m.refs["refs/%s/r%06d" % (k, i)] = G.Commit(t, [], cts=1300000000 + i, msg=b"c%d\n" % i)
+        g = {"heads": "branches", "tags": "tags", "remotes/o": "remotes", "misc": "other"}[k]
+        tallies[g] = tallies.get(g, 0) + 1
+    gitdir = G.write_model(m, os.path.join(d, "repo"), packed_refs=True)
+    want_groups = dict(tallies)
+    want_groups[""] = nrefs
+    runs = [(["--json", "--no-progress"], None), (["--json", "--no-progress", "--show-refs"], (4096, 1, 400)),
+            (["--json", "--json-version=2", "--no-progress", "--show-refs"], (1024, 0.5)),
+            (["-v", "--no-progress", "--show-refs"], (8192, 3, 700)), (["-v", "--no-progress"], None)]
+    outs = []
+    for k, (argv, slow) in enumerate(runs):
+        r = R.sizer(sz, gitdir, argv, env={"GOMAXPROCS": ["", "1", "2", "4", "16"][k % 5]} if k % 5 else None, tmpdir=d, timeout=600,
+                    slow_stderr=slow)
+        chk.count()
+        if r.rc != 0 or r.timed_out:
+            chk.violation(prefix + "/many-walked-refs/run-failed", {"argv": argv, "stderr": r.err[-300:].decode("utf-8", "replace")})
+            outs.append(None)
+            continue
+        outs.append(r.out)
+        if "--json" in argv:
+            j, _ = P.parse_json(r.out)
+            if "--json-version=2" in argv:
+                got = {"count": (j or {}).get("referenceCount", {}).get("value"), "commits": (j or {}).get("uniqueCommitCount", {}).get("value"),
+                       "groups": {g: (j or {}).get("refgroup." + g, {}).get("value") for g in tallies}}
+            else:
+                got = {"count": (j or {}).get("reference_count"), "commits": (j or {}).get("unique_commit_count"),
+                       "groups": {g: ((j or {}).get("reference_groups") or {}).get(g) for g in tallies}}
+            want = {"count": nrefs, "commits": nrefs, "groups": tallies}
+            if got != want:
+                chk.violation(prefix + "/many-walked-refs/json-counts", {"argv": argv, "slow_stderr_reader": slow, "got": got, "want": want})
+        chk.nontrivial(("manywalked", k))
+    if outs[0] and outs[2] and outs[3] and outs[4]:
+        j1, _ = P.parse_json(outs[0])
+        j2, _ = P.parse_json(outs[2])
+        gn = {"branches": "Branches", "tags": "Tags", "remotes": "Remote-tracking refs", "other": "Other"}
+        for tab, label in ((outs[3], "slow-stderr"), (outs[4], "plain")):
+            for clause, det in check_formats(j1, j2, [("0", tab)], "manywalked-" + label, group_names=gn):
+                chk.violation(prefix + "/many-walked-refs/table/" + clause, det)
+        if outs[3] != outs[4]:
+            chk.violation(prefix + "/many-walked-refs/table-differs-between-runs", {"first_diff": R._first_diff_lines(outs[4], outs[3])})
+    chk.cov["many_walked_refs_case_references"] = nrefs
+    shutil.rmtree(d, ignore_errors=True)
+
+
 def run(chk, b, tier):
     n = 150 if tier == "quick" else 8000
     sz = b.sizer()
@@ -352,7 +415,10 @@ def run(chk, b, tier):
         if r["maxdepth"]:
             depths[r["maxdepth"]] = depths.get(r["maxdepth"], 0) + 1
     many_refs_case(chk, sz, scratch, 150000 if tier == "quick" else 400000)
+    many_walked_refs_case(chk, sz, scratch, 3000 if tier == "quick" else 12000)
     chk.cov["hierarchies_by_max_nesting_depth"] = {str(k): v for k, v in sorted(depths.items())}
+    from ._camp import generic_fault_sweep
+    generic_fault_sweep(chk, b, "C07", [['--json', '--json-version=2', '--no-progress'], ['-v', '--no-progress', '--include', '@mine.b']])
     chk.cov["rule"] = ("generated refgroup forests in the repository's gitconfig (nesting 1..20, implicit parents, rule-less "
                        "unions, exclude-only groups, augmented built-ins, symbols with spaces/capitals/quotes/UTF-8, display "
                        "names) x reference sets x selections (incl. @group) x {JSON v1, JSON v2, -v table}; tallies compared "
